@@ -497,6 +497,13 @@ class Interp:
         if all(a.im.is_zero() for a in ca) and g in ("exp", "cos", "sin", "cosh", "sinh", "tan", "tanh", "atan", "asinh"):
             # entire (or real-analytic on R) functions: real on the real axis
             return CPoly(ctx.fn(g, [a.re for a in ca]), ctx.const(0))
+        if all(a.im.is_zero() for a in ca) and g in ("sqrt", "ln", "acos", "asin", "acosh", "atanh", "pow"):
+            # real argument assumed inside the function's real domain (same assumption as the
+            # real atoms make: sqrt/ln arguments non-negative / positive)
+            ra = [a.re for a in ca]
+            if g == "sqrt":
+                return CPoly(ctx.sqrt(ra[0]), ctx.const(0))
+            return CPoly(ctx.fn(g, ra), ctx.const(0))
         return ctx.cfn(g, ca)
 
 
@@ -515,6 +522,27 @@ class Site:
         self.array, self.index, self.loops, self.write, self.line, self.shape = array, index, loops, write, line, shape
 
 
+INT_TABLES: dict = {}
+
+
+def _int_leaves(init):
+    out = []
+
+    def w(e):
+        if e[0] in ("init",):
+            for x in e[1]:
+                w(x)
+        elif e[0] == "fill":
+            w(e[1])
+        elif e[0] == "num" and isinstance(e[1], int):
+            out.append(e[1])
+        elif e[0] == "un" and e[1] == "-" and e[2][0] == "num":
+            out.append(-e[2][1])
+
+    w(init)
+    return out
+
+
 def collect_sites(body, lang="c"):
     """Return (sites, decls): each site carries the IR index expressions, the enclosing loops
     [(var, begin_expr, end_expr)] and the shape of the local array visible at that point
@@ -522,6 +550,7 @@ def collect_sites(body, lang="c"):
     sites: list[Site] = []
     decls: dict[str, tuple] = {}
     scopes: list[dict] = [{}]
+    INT_TABLES.clear()
 
     def shape_of(name):
         for sc in reversed(scopes):
@@ -562,6 +591,10 @@ def collect_sites(body, lang="c"):
                 if shape is not None:
                     decls[name] = tuple(shape)
                     scopes[-1][name] = tuple(shape)
+                    if tclass == "int" and init is not None:
+                        vals = _int_leaves(init)
+                        if vals:
+                            INT_TABLES[name] = (min(vals), max(vals))
             elif k == "assign":
                 _, lhs, op, rhs, line = st
                 if lhs[0] == "idx":
